@@ -142,9 +142,13 @@ func (m *Modifier) ModifyResponse(res *http.Response) error {
 			return err
 		}
 
-		if start > end {
+		if start > end || start >= len(m.body) {
 			res.StatusCode = http.StatusRequestedRangeNotSatisfiable
 			return nil
+		}
+		// A last position beyond the end means "up to the last byte".
+		if end >= len(m.body) {
+			end = len(m.body) - 1
 		}
 
 		ranges = append(ranges, []int{start, end})
